@@ -1204,6 +1204,13 @@ func (s *BgpServer) sendSecondaryRoutes(peer *peer, newPath *table.Path, dsts []
 	}
 
 	f := func(path, old *table.Path) *table.Path {
+		// The view a route server client has of the table leaves out the
+		// paths that carry its AS, and prePolicyFilterpath relies on that
+		// for such clients. This walk goes over the whole path list, so it
+		// has to skip them itself.
+		if isASLoop(peer, path) {
+			return nil
+		}
 		path, options, stop := s.prePolicyFilterpath(peer, path, old)
 		if stop {
 			return nil
